@@ -252,6 +252,28 @@ def _run_history(task, seq, split, out, only=False):
                 s = float(sc.to(torch.float64))
                 if amax is not None and amax > (s + num.QSUB[dtname]) * qmax * (1 + 8 * u):
                     out["violations"].append(violation(PID, case, dict(fields, sub="saturates_after_one_batch"), f"saturates_after_one_batch: module {n} {which} absmax {amax!r} > scale*qmax = {s * qmax!r} after calibrating on that single batch"))
+    # long-history tasks: the same Calibration object then serves a second model for many batches; the scales of the first model,
+    # whose calibration is over, must stay what they were (state carried between models through the context object)
+    if task.get("seqs") and split is None:
+        try:
+            ctx2 = Calibration(momentum=mom, streamline=False)
+            ma = _build(name, dt)
+            quantize(ma, weights=num.qt("qint8"), activations=num.qt(aname))
+            with torch.no_grad(), ctx2:
+                ma(_batch("unit", name, dt, aname, 0))
+                ma(_batch("x10", name, dt, aname, 1))
+            snap = {n: (m.input_scale.detach().clone(), m.output_scale.detach().clone()) for n, m in ma.named_modules() if isinstance(m, QModuleMixin)}
+            mb = _build(name, dt)
+            quantize(mb, weights=num.qt("qint8"), activations=num.qt(aname))
+            with torch.no_grad(), ctx2:
+                for k in range(task.get("second_model_batches", 140)):
+                    mb(_batch(("unit", "x0.1", "x10")[k % 3], name, dt, aname, k))
+            for n, m in ma.named_modules():
+                if isinstance(m, QModuleMixin) and not (num.same_bits(m.input_scale.detach(), snap[n][0]) and num.same_bits(m.output_scale.detach(), snap[n][1])):
+                    out["violations"].append(violation(PID, case, dict(fields, sub="foreign_scale_changed"), f"foreign_scale_changed: calibrating a second model for many batches with the same Calibration object changed the scales of module {n} of the first model, whose calibration was over"))
+                    break
+        except Exception as e:  # noqa
+            out["violations"].append(violation(PID, case, dict(fields, sub="raised"), f"raised: calibrating a second model with the same Calibration object raised {type(e).__name__}: {str(e)[:160]}"))
     # a later context that only runs the last module on float inputs must leave every other module's scales alone
     if len(qmods) >= 2 and qmods[-1][1].activation_qtype is not None:
         others = {n: (m.input_scale.detach().clone(), m.output_scale.detach().clone()) for n, m in qmods[:-1]}
